@@ -198,6 +198,31 @@ pub fn exec(store: &mut GraphStore, text: &str, params: Option<&HashMap<String, 
     }
 }
 
+/// the read-only path: parse + `QueryExecutor` (what `QueryEngine::execute` takes)
+pub fn exec_read(store: &GraphStore, text: &str, params: Option<&HashMap<String, PropertyValue>>) -> Outcome {
+    let q = match parse_query(text) {
+        Ok(q) => q,
+        Err(e) => return Outcome { rows: Err((ErrKind::Parse, format!("{}", e))), columns: vec![] },
+    };
+    static QUIET: std::sync::Once = std::sync::Once::new();
+    QUIET.call_once(|| std::panic::set_hook(Box::new(|_| {})));
+    let r = std::panic::catch_unwind(std::panic::AssertUnwindSafe(|| {
+        let mut ex = samyama::query::executor::QueryExecutor::new(store);
+        if let Some(p) = params {
+            ex = ex.with_params(p.clone());
+        }
+        ex.execute(&q)
+    }));
+    match r {
+        Ok(Ok(b)) => Outcome { rows: Ok(batch_rows(&b)), columns: b.columns.clone() },
+        Ok(Err(e)) => {
+            let m = format!("{}", e);
+            Outcome { rows: Err((classify(&m), m)), columns: vec![] }
+        }
+        Err(_) => Outcome { rows: Err((ErrKind::Other, "panic".into())), columns: vec![] },
+    }
+}
+
 /// sorted bag of rows as one token: `row/row/…` with row = `v,v,…`; `-` for no rows,
 /// `_` for a row without columns
 pub fn rows_text(rows: &[Vec<String>]) -> String {
